@@ -411,8 +411,10 @@ def rich_seeds(depth):
     fcx = W3({"A.f": 1, "A.f.dim": 3, "B.p": "L"})
     fcx["prefix"] = [["op", "state", ["A.f"], "FCustom", {"tag": 1}], ["op", "state", ["Q"], "QExpr", None]]
     ent = with_prefix(W3({"A.f": 1, "B.p": "V"}), ENT_PREFIX)
+    wmix = W3({"A.f": 1, "A.p": "R", "B.p": "V"})       # product state with purity deficit 2e-4 (weakly mixed), contraction on
+    wmix["prefix"] = [["op", "ce:h1", ["A.p", "B.p"], "CX", None], ["kraus", "ce:h1", ["A.p"], "dephase", {"p": 1e-4}]]
     out = [("W3/ent", ent), ("W3/ps3M", ps3m), ("W3/env-entangled", envent), ("W3/env-entangled-mixed", enventm),
-           ("W3/fock-complex", fcx)]
+           ("W3/fock-complex", fcx), ("W3/ps-weakly-mixed", wmix)]
     return [(n, w, depth) for n, w in out]
 
 
@@ -472,6 +474,9 @@ def get(name, tier, seed):
             if L:
                 acts.append(["measure", "state", [L[0]], True, False])
                 acts.append(["measure", "state", [L[-1]], False, True])
+            F5 = focks(m)
+            if F5:
+                acts.append(["measure", "state", [F5[0]], True, True])      # partner polarization survives its envelope
             return acts
         return {**base, "prop": "C05", "worlds": (quick_w3(1) + SEEDS_W1[:2] if q else SEEDS_W3 + SEEDS_W1) + rich_seeds(1 if q else 2),
                 "core": core5, "probes": probes_measure(seed), "depth": 2 if q else 3, "continuation": True}
@@ -723,6 +728,7 @@ def get(name, tier, seed):
             if F:
                 acts.append(["measure", "state", [F[-1]], False, True])
             return acts
-        return {**base, "prop": "C17", "worlds": (quick_w3(1) + [SEEDS_W3[1]] * 0 + SEEDS_W1[1:2] if q else SEEDS_W3 + SEEDS_W1) + rich_seeds(1 if q else 2),
+        return {**base, "prop": "C17", "worlds": (quick_w3(1) + SEEDS_W1[1:2] if q else SEEDS_W3 + SEEDS_W1) + rich_seeds(1 if q else 2) + weak_seed(0 if q else 1)
+                + [("W3/hom", with_prefix(W3({"A.f": 1, "B.f": 1}), [["op", "ce:h1", ["A.f", "B.f"], "BS", {"eta": PI / 4}]]), 0 if q else 1)],
                 "core": core17, "probes": fault_menu(seed), "depth": 2 if q else 3, "faults": True}
     raise KeyError(name)
